@@ -42,6 +42,7 @@ def gen_abf(r, cid, big=False):
     rounds = r.randint(1, 3)
     t_end = F * rounds + r.randint(0, F - 1)
     p_restart = r.choice([0.0, 0.0, 0.1, 0.25])
+    output = r.random() < 0.5        # output prefix set: end-of-run output files are written at "o" events
     seqs = []
     for w in range(n):
         s = []
@@ -53,6 +54,8 @@ def gen_abf(r, cid, big=False):
             frac = r.choice([0.5, 0.5, 0.0, 0.25, 0.984375])
             forces = [V.dyadic(r, -8, 8) for _ in range(nd)]
             s.append(["s", w, bins, forces, frac])
+            if output and r.random() < 0.15:
+                s.append(["o", w])
             if r.random() < p_restart and t < t_end:
                 s.append(["r", w, r.choice(["text", "binary"])])
                 s.append(["s", w, bins, [V.dyadic(r, -8, 8) for _ in range(nd)], frac])   # the repeated step
@@ -87,10 +90,10 @@ def gen_abf(r, cid, big=False):
                 pending.add(w)
                 if len(pending) == n:
                     pending = set()
-        else:
+        elif ev[0] == "r":
             first[w] = True
             last[w] = t[w]
-    return {"kind": "abf", "id": cid, "n": n, "nd": nd, "nbins": nbins, "freq": F, "apply": r.random() < 0.7,
+    return {"kind": "abf", "id": cid, "output": output, "integrate": r.random() < 0.6, "n": n, "nd": nd, "nbins": nbins, "freq": F, "apply": r.random() < 0.7,
             "full": r.choice([1, 2, 200]), "events": events}
 
 
@@ -186,6 +189,11 @@ def abf_expect(case):
                 qmap[k] = nq
                 nq += 1
                 exp[k] = dict(grids(w, nshared), last_step=last[w], restarted=restarted)
+        elif ev[0] == "o":
+            tokens.append("q,%d" % w)
+            qmap[k] = nq
+            nq += 1
+            exp[k] = dict(grids(w, nshared), last_step=last[w], restarted=restarted)
         else:
             restarted = True
             first[w] = True
